@@ -40,6 +40,9 @@ type StatusObj struct {
 	Msg  string
 }
 
+// RngObj is an opaque random source.
+type RngObj struct{}
+
 type CtxObj struct {
 	parent   *CtxObj
 	children []*CtxObj
@@ -54,7 +57,7 @@ type CtxObj struct {
 
 func isNativeObj(v Value) bool {
 	switch v.(type) {
-	case *ErrObj, *StatusObj, *CtxObj, *PRMsg, *PRField, *PRList, *PRMap, *PRFields, *PRMsgDesc, *PREnum, *ListStub, *PRVal:
+	case *ErrObj, *StatusObj, *CtxObj, *PRMsg, *PRField, *PRList, *PRMap, *PRFields, *PRMsgDesc, *PREnum, *ListStub, *PRVal, *RngObj:
 		return true
 	}
 	return false
@@ -423,7 +426,14 @@ func init() {
 	})
 	reg("sort.Strings", func(ex *Exec, g *G, fn *ssa.Function, args []Value, done func(Value)) {
 		sl := args[0].(SliceV)
-		ex.sortGeneric(g, sl, func(a, b Value) *smt.Term { return ex.B.StrLt(termOf(a), termOf(b)) }, false)
+		ex.sortGeneric(g, sl, func(a, b Value) *smt.Term {
+			x, y := termOf(a), termOf(b)
+			if isOrd(x) || isOrd(y) {
+				x, y = ex.ordPair(x, y)
+				return ex.B.Ult(x, y)
+			}
+			return ex.B.StrLt(x, y)
+		}, false)
 		done(nil)
 	})
 	reg("sort.SliceIsSorted", func(ex *Exec, g *G, fn *ssa.Function, args []Value, done func(Value)) {
@@ -512,6 +522,48 @@ func init() {
 	})
 	reg("math.Float32bits", func(ex *Exec, g *G, fn *ssa.Function, args []Value, done func(Value)) {
 		done(ex.B.FToBits(termOf(args[0])))
+	})
+
+	// ---- math/rand: an opaque source of arbitrary bytes ----
+	reg("math/rand.NewSource", func(ex *Exec, g *G, fn *ssa.Function, args []Value, done func(Value)) {
+		done(IfaceV{V: &RngObj{}})
+	})
+	reg("math/rand.New", func(ex *Exec, g *G, fn *ssa.Function, args []Value, done func(Value)) {
+		t := fn.Signature.Results().At(0).Type().(*types.Pointer).Elem()
+		l := &Loc{T: t, V: &RngObj{}}
+		ex.nloc++
+		l.ID = ex.nloc
+		done(Ptr{l})
+	})
+	reg("(*math/rand.Rand).Read", func(ex *Exec, g *G, fn *ssa.Function, args []Value, done func(Value)) {
+		p, _ := args[0].(Ptr)
+		if p.L != nil {
+			ex.noteAccess(p.L, true) // reading random bytes mutates the generator
+		}
+		sl := args[1].(SliceV)
+		for i := 0; i < sl.Len; i++ {
+			ex.store(sl.Arr.Kids[sl.Off+i], ex.input("rng", "uint8", smt.BV(8)))
+		}
+		done(TupleV{ex.intC(sl.Len), IfaceV{}})
+	})
+	reg("(*encoding/base64.Encoding).EncodeToString", func(ex *Exec, g *G, fn *ssa.Function, args []Value, done func(Value)) {
+		// injective function of the byte string: modelled by an ordinal string built from (a hash-free) pairing of the
+		// first bytes; collisions between distinct inputs are excluded by construction for inputs of equal length <= 7
+		sl := args[1].(SliceV)
+		if sl.Len == 0 {
+			done(ex.strC(""))
+			return
+		}
+		B := ex.B
+		acc := B.BVC(1, OrdW) // never the empty string
+		n := sl.Len
+		if n > 7 {
+			n = 7 // 7*8 = 56 bits + marker fit in 61 bits; longer inputs share the prefix (sound for "may collide")
+		}
+		for i := 0; i < n; i++ {
+			acc = B.BOr(B.Shl(acc, B.BVC(8, OrdW)), B.Zext(termOf(ex.load(sl.Arr.Kids[sl.Off+i])), OrdW))
+		}
+		done(acc)
 	})
 
 	// ---- strings / strconv: concrete call-through ----
